@@ -738,8 +738,10 @@ impl<'a> Poly<'a> {
         // Compute: middle product(1 + x C, A + x^n B)
         // = (1 + x C, A + x^n B) [x^n .. x^(2n-1)]
         // = B + middle product(C, A..B)
-        if z[0] == zn.one() && (half_up - 1) & (half_up - 2) == 0 {
-            debug_assert!(p.len() - 1 == 2 * (half_up - 1));
+        if z[0] == zn.one()
+            && (half_up - 1) & (half_up - 2) == 0
+            && p.len() - 1 == 2 * (half_up - 1)
+        {
             Self::_middlemul_1x(zr, tmplo, &p[1..], &z[1..half_up], tmp_mul);
         } else {
             tmp_p[..p.len() - 1].copy_from_slice(&p[1..]);
@@ -777,7 +779,11 @@ impl<'a> Poly<'a> {
         // α in HQZ paper.
         Self::_inv_mod_xn(zr, alpha, &q[..half_up], tmphi);
         // β in HQZ paper.
-        if p[0] == zn.one() && alpha[0] == zn.one() && (half_up - 1) & (half_up - 2) == 0 {
+        if p[0] == zn.one()
+            && alpha[0] == zn.one()
+            && half_up >= 2
+            && (half_up - 1) & (half_up - 2) == 0
+        {
             // Common case: (1+α)(1+β)=1+α+β+αβ where len(α) = 2^k
             Self::_longmul(
                 zr,
@@ -798,7 +804,10 @@ impl<'a> Poly<'a> {
         // Hensel lift mod x^n
         // Get P1 / Q0^2 as a middle product
         // γ in HQZ paper.
-        if z[0] == zn.one() && (half_up - 1) & (half_up - 2) == 0 {
+        if z[0] == zn.one()
+            && (half_up - 1) & (half_up - 2) == 0
+            && q.len() - 1 == 2 * (half_up - 1)
+        {
             Self::_middlemul_1x(zr, tmparg, &q[1..], &z[1..half_up], tmphi);
         } else {
             // Shift by one like inverse:
@@ -824,7 +833,7 @@ impl<'a> Poly<'a> {
 
     pub fn div_mod_xn(p: &'a Poly<'a>, q: &Poly<'a>) -> Self {
         let mut z = vec![MInt::default(); p.c.len()];
-        let mut tmp = vec![MInt::default(); 5 * p.c.len()];
+        let mut tmp = vec![MInt::default(); 6 * p.c.len() + 16];
         Self::_div_mod_xn(p.r, &mut z, &p.c, &q.c, &mut tmp);
         Poly { r: p.r, c: z }
     }
